@@ -50,12 +50,21 @@ Definition iterate_nalu_start_code (nalu : bytes) (start : N) : option (N * N) :
        | None => None
        end.
 
-(* onAvPacketWrap *)
+(* number of zero bytes at the front *)
+Fixpoint leading_zeros (l : bytes) : N :=
+  match l with
+  | b :: t => if b =? 0 then 1 + leading_zeros t else 0
+  | [] => 0
+  end.
+
+(* onAvPacketWrap.  The NAL header follows the start code: zero bytes, then 01
+   (C07 fix, lal 9c43f17; before it offset 4 was hard-wired, i.e. a 4-byte start
+   code assumed, and (C13 fix) a nalu shorter than 5 bytes was dropped) *)
 Definition on_av_packet_wrap (fx : bool) (wait : bool) (e : ps_ev) : res (bool * list ps_ev) :=
   if (pe_pt e =? 96)%Z || (pe_pt e =? 98)%Z then
-    (* fix: a nalu shorter than 5 bytes (start code + type) is dropped *)
-    if fx && (lenN (pe_payload e) <? 5) then Ok (wait, []) else
-    let* b4 := idx s_ps_wrap_index (pe_payload e) 4 in
+    let hdr := if fx then leading_zeros (pe_payload e) + 1 else 4 in
+    if fx && (lenN (pe_payload e) <=? hdr) then Ok (wait, []) else
+    let* b4 := idx s_ps_wrap_index (pe_payload e) hdr in
     let typ := if (pe_pt e =? 96)%Z then b4 mod 32 else (b4 mod 128) / 2 in
     if wait then
       if (pe_pt e =? 96)%Z then
@@ -101,10 +110,13 @@ Definition read_pts (rb : bytes) (off : N) : res Z :=
   Ok (Z.of_N (((b0 / 2) mod 8) * 1073741824 + ((b1 * 256 + b2) / 2) * 32768 + (b3 * 256 + b4) / 2)).
 
 (* ---------------------------------------------------------------------- *)
-Definition parse_pack_header (rb : bytes) : res Z :=
+Definition parse_pack_header (fx : bool) (rb : bytes) : res Z :=
   (* index = 4: i = 13 *)
   if lenN rb <=? 13 then Ok (-1)%Z else
   let* b := idx s_ps_misc_index rb 13 in
+  (* C07 fix (lal 446939e): the stuffing bytes must be there too (before: consumed = 10 + l was
+     returned anyway and Buffer.Skip beyond the end reset the buffer) *)
+  if fx && (lenN rb <? 14 + b mod 8) then Ok (-1)%Z else
   Ok (Z.of_N (10 + b mod 8)).
 
 Definition parse_pack_stream_body (rb : bytes) : res Z :=
@@ -241,7 +253,7 @@ Fixpoint feed_body_loop (fx : bool) (fuel : nat) (st : ps_state) (rtpts : N) (ac
           if fx && (lenN rb <? 4) then Ok (false, st, acc) else
           let* code := be_at s_ps_feed_slice s_ps_be32_index 4 rb 0 in
           let* (cs, evs) :=
-            (if code =? 442 then let* c := parse_pack_header rb in Ok (c, st, [])                     (* 0x1ba *)
+            (if code =? 442 then let* c := parse_pack_header fx rb in Ok (c, st, [])                     (* 0x1ba *)
              else if (code =? 443) || (code =? 445) || (code =? 447) || (code =? 496) || (code =? 497) || (code =? 446) || (code =? 511)
                   then let* c := parse_pack_stream_body rb in Ok (c, st, [])
              else if code =? 444 then
